@@ -36,6 +36,66 @@ type outcome struct {
 	Raw    string // the very string the library returned (shares whatever memory the library used for it)
 }
 
+// A report is a Go string: whatever the library does later, the text a caller was handed stays what it was. The harness keeps
+// the last few strings the library returned (the very strings, sharing whatever memory the library used for them) next to private
+// copies taken at once, and looks again after every later call: a kept report that no longer equals its copy was changed behind
+// the caller's back (a reused encoding buffer, a zero-copy conversion).
+var (
+	retainMu       sync.Mutex
+	retainedRaw    []string
+	retainedCopy   []string
+	retainedChange string
+)
+
+func retain(rep string) string {
+	cp := strings.Clone(rep)
+	retainMu.Lock()
+	defer retainMu.Unlock()
+	checkRetainedLocked()
+	retainedRaw = append(retainedRaw, rep)
+	retainedCopy = append(retainedCopy, cp)
+	if len(retainedRaw) > 12 {
+		retainedRaw, retainedCopy = retainedRaw[1:], retainedCopy[1:]
+	}
+	return cp
+}
+
+func checkRetainedLocked() {
+	for k := range retainedRaw {
+		if retainedRaw[k] != retainedCopy[k] && retainedChange == "" {
+			at := 0
+			for at < len(retainedCopy[k]) && at < len(retainedRaw[k]) && retainedRaw[k][at] == retainedCopy[k][at] {
+				at++
+			}
+			lo, hi := at-40, at+80
+			if lo < 0 {
+				lo = 0
+			}
+			clip := func(t string) string {
+				if hi < len(t) {
+					return t[lo:hi]
+				}
+				return t[lo:]
+			}
+			retainedChange = fmt.Sprintf("a report of %d bytes returned %d call(s) ago changed at byte %d after a later call: it read %q, it now reads %q",
+				len(retainedCopy[k]), len(retainedRaw)-k, at, clip(retainedCopy[k]), clip(strings.Clone(retainedRaw[k])))
+		}
+	}
+	if retainedChange != "" {
+		retainedRaw, retainedCopy = nil, nil
+	}
+}
+
+// takeRetainedChange reports (and clears) a change of a kept report noticed since the last call
+func takeRetainedChange() string {
+	retainMu.Lock()
+	defer retainMu.Unlock()
+	checkRetainedLocked()
+	c := retainedChange
+	retainedChange = ""
+	return c
+}
+
 // validate runs pkg.ValidateWithConfiguration under recover and a timeout.
 func validate(profile, data string, rc config.ReportConfiguration) outcome {
 	return validateAt(profile, data, rc, fixedClock{})
@@ -54,7 +114,7 @@ func validateAt(profile, data string, rc config.ReportConfiguration, clock confi
 			ch <- outcome{Kind: "error", Err: err.Error()}
 			return
 		}
-		ch <- outcome{Kind: "ok", Report: strings.Clone(rep), Raw: rep}
+		ch <- outcome{Kind: "ok", Report: retain(rep), Raw: rep}
 	}()
 	select {
 	case o := <-ch:
@@ -311,6 +371,9 @@ func runImpl(in io.Reader, out io.Writer) {
 			history = history[len(history)-400:]
 		}
 		res["id"] = h.Id
+		if c := takeRetainedChange(); c != "" {
+			res["retainedChanged"] = c
+		}
 		if so, se := noise(); so != "" || se != "" {
 			res["libStdout"], res["libStderr"] = so, se
 		}
@@ -561,7 +624,44 @@ func implHist(h caseHead, raw []byte) map[string]any {
 	var hh histHead
 	json.Unmarshal(raw, &hh)
 	res := map[string]any{}
+	// one history in three compiles its profile while the process is compiling OTHER profiles (a server preparing the profiles of
+	// several tenants): what a compiled profile means is settled by its text alone
+	var stopBusy chan bool
+	var busyDone sync.WaitGroup
+	if h.Id%3 == 1 {
+		stopBusy = make(chan bool)
+		for w := 0; w < 3; w++ {
+			busyDone.Add(1)
+			go func(w int) {
+				defer busyDone.Done()
+				defer func() { recover() }()
+				for k := w; ; k++ {
+					select {
+					case <-stopBusy:
+						return
+					default:
+					}
+					if w == 0 {
+						pkg.CompileProfile(interferers[k%len(interferers)], false, nil)
+					} else {
+						// (what `acv generate` does: translation only, so these come round far more often than a whole compilation)
+						verifhook.GenerateRego(interferers[k%len(interferers)], nil)
+					}
+				}
+			}(w)
+		}
+		time.Sleep(2 * time.Millisecond)
+	}
 	compiled, err := compileQuiet(h.Profile)
+	if stopBusy != nil {
+		close(stopBusy)
+		waited := make(chan bool, 1)
+		go func() { busyDone.Wait(); waited <- true }()
+		select {
+		case <-waited:
+		case <-time.After(callDeadline(120)):
+		}
+	}
 	if err == errCompileBlocked {
 		res["outcome"] = "timeout"
 		res["err"] = err.Error()
@@ -582,7 +682,7 @@ func implHist(h caseHead, raw []byte) map[string]any {
 		if err != nil {
 			return "err", ""
 		}
-		return "ok", rep
+		return "ok", retain(rep)
 	}
 	var positions []map[string]any
 	allSame := true
@@ -736,6 +836,9 @@ func implC03(h caseHead, raw []byte) map[string]any {
 		}
 	}()
 	before := time.Now().Add(-2 * time.Minute)
+	if err == nil {
+		rep = retain(rep)
+	}
 	if err != nil {
 		res["outcome"] = "error"
 		res["err"] = err.Error()
@@ -1249,8 +1352,9 @@ func dropLocations(v any) {
 
 // c15: the same profile in several spellings on the same data
 type c15Head struct {
-	ProfileB string `json:"profileB"`
-	ProfileC string `json:"profileC"`
+	ProfileB   string `json:"profileB"`
+	ProfileC   string `json:"profileC"`
+	ProfilePre string `json:"profilePre"`
 }
 
 func implC15(h caseHead, raw []byte) map[string]any {
@@ -1277,6 +1381,9 @@ func implC15(h caseHead, raw []byte) map[string]any {
 		r["pairs"] = rv.Pairs()
 		r["conforms"] = rv.Conforms
 		return r
+	}
+	if ch.ProfilePre != "" {
+		one(ch.ProfilePre) // a neighbour of the first spelling with another meaning; its answer is not looked at
 	}
 	res["a"] = one(h.Profile)
 	res["b"] = one(ch.ProfileB)
